@@ -5,3 +5,4 @@ import PicoSVG.Model.Transform
 import PicoSVG.Gen.Tables
 import PicoSVG.Spec.Transform
 import PicoSVG.Props.C11
+import PicoSVG.Props.C09
